@@ -659,6 +659,12 @@ def _calendar_routes():
     for num in HebrewMonthNumbering:
         cid = CalendarSystem.get_hebrew_calendar(num).id
         routes.append((cid, "hebrew:%s" % num.name, lambda num=num: CalendarSystem.get_hebrew_calendar(num)))
+        # the factory range-checks int(month_numbering): plain ints are a working input on the unchanged tree
+        try:
+            if CalendarSystem.get_hebrew_calendar(int(num)).id == cid:
+                routes.append((cid, "hebrew-int:%d" % int(num), lambda num=num: CalendarSystem.get_hebrew_calendar(int(num))))
+        except Exception:  # noqa: BLE001
+            pass
     for pat in IslamicLeapYearPattern:
         for ep in IslamicEpoch:
             cid = CalendarSystem.get_islamic_calendar(pat, ep).id
@@ -682,6 +688,11 @@ def _calendar_histories(acc: Acc):
     reg = _calendar_registry()
     if reg is None:
         acc.degrade("calendar registry not reachable: singleton check runs on the already initialised registry only")
+    def probe(cal):
+        y = max(cal.min_year, min(cal.max_year, 5783 if cal.id.startswith("Hebrew") else 1400))
+        miy = cal.get_months_in_year(y)
+        return tuple(impl.days_of(LocalDate(y, m, 1, cal)) for m in sorted({1, 2, min(7, miy), miy})) + (cal.get_days_in_month(y, 1), cal.get_days_in_month(y, miy))
+    baseline = {cid: probe(CalendarSystem.for_id(cid)) for cid in by_id}
     n = 0
     for cid, rs in by_id.items():
         for perm in itertools.permutations(rs, min(len(rs), 3)):
@@ -700,6 +711,9 @@ def _calendar_histories(acc: Acc):
                 for name, o in objs:
                     if o.id != cid:
                         acc.violation("C13/calendars/wrong-id/%s" % cid, "route %s returned calendar %s" % (name, o.id), {"calendar": cid, "routes": [p[0] for p in perm]})
+                    if o.id == cid and probe(o) != baseline[cid]:
+                        acc.violation("C13/calendars/behaves-differently/%s" % cid, "calendar %s obtained first through %r maps dates differently from the one obtained at start-up: %r vs %r" % (cid, [p[0] for p in perm], probe(o), baseline[cid]),
+                                      {"calendar": cid, "routes": [p[0] for p in perm]})
                     if o is not objs[0][1]:
                         acc.violation("C13/calendars/not-singleton/%s" % cid, "routes %r returned distinct objects for %s" % ([p[0] for p in perm], cid), {"calendar": cid, "routes": [p[0] for p in perm]})
             except Exception as e:  # noqa: BLE001
@@ -1052,6 +1066,19 @@ def _generic_catalogue():
     alias = mk_instant(1_720_000_000 * 10**9 + 16384 * NS_DAY)
     entry("zone-warm-hit-vs-alias", lambda: src.for_id("America/New_York"), lambda z: z.get_zone_interval(i2024),
           lambda z: (_zi_key(z.get_zone_interval(i2024)), z.get_utc_offset(i2024).seconds), lambda z: _zi_key(z.get_zone_interval(alias)), repr)
+    # two INDEPENDENT writers (own output streams) encoding at the same time: nothing may be shared between them
+    import io as _io
+
+    def _encode(values):
+        from pyoda_time.time_zones.io._date_time_zone_writer import _DateTimeZoneWriter
+        out = _io.BytesIO()
+        w = _DateTimeZoneWriter._ctor(out, None)
+        for v in values:
+            w.write_count(v)
+        w.write_string("Zone/A")
+        w.write_signed_count(-values[0])
+        return out.getvalue().hex()
+    entry("codec-independent-writers", lambda: None, None, lambda _: _encode([300, 5, 70000, 2**21 + 5]), lambda _: _encode([1, 16384, 127, 128, 2**28]), repr)
     lt = LocalDateTime(2021, 3, 28, 1, 30, 0)
     entry("zone-map-local", lambda: src.for_id("Europe/London"), None, lambda z: (z.map_local(lt).count, z.at_leniently(lt).offset.seconds),
           lambda z: (z.map_local(LocalDateTime(2021, 10, 31, 1, 30, 0)).count, repr(z.at_start_of_day(LocalDate(2021, 3, 28)).to_instant())), repr)
@@ -1073,6 +1100,7 @@ _GENERIC_FILES = {
     "zone-tail-lookups": ("_caching_zone_interval_map.py", "_cached_date_time_zone.py", "_precalculated_date_time_zone.py", "_standard_daylight_alternating_map.py",
                           "_zone_recurrence.py", "_zone_year_offset.py"),
     "zone-warm-hit-vs-alias": ("_caching_zone_interval_map.py", "_cached_date_time_zone.py"),
+    "codec-independent-writers": ("_date_time_zone_writer.py",),
     "zone-map-local": ("_caching_zone_interval_map.py", "_cached_date_time_zone.py", "_zone_local_mapping.py", "_date_time_zone.py::map_local|at_start_of_day"),
 }
 
@@ -1156,7 +1184,7 @@ def _harness_table(tier):
     hs.append(("H2-hebrew-warm:civil", lambda: H_hebrew_warm("civil")))
     hs.append(("H2-hebrew-warm:scriptural", lambda: H_hebrew_warm("scriptural")))
     for g in ("weekyear-rule", "weekyear-rule-regular", "odt-with-calendar", "odt-with-offset", "dateinterval-len", "dateinterval-iter", "period-between-hebrew",
-              "pattern-format", "pattern-parse", "zone-tail-lookups", "zone-warm-hit-vs-alias", "zone-map-local"):
+              "pattern-format", "pattern-parse", "zone-tail-lookups", "zone-warm-hit-vs-alias", "zone-map-local", "codec-independent-writers"):
         hs.append(("H20-generic:%s" % g, lambda g=g: H_generic(g)))
         if tier != "quick":
             hs.append(("H21-generic-whole-library:%s" % g, lambda g=g: H_generic(g, True)))
